@@ -432,7 +432,7 @@ def job_ground_accuracy(ctx: Ctx, what):
         v = po.solve_poisson_bvp(ag, rho(ag.points, cs, al, cf), itf, include_origin=True, remove_large_pts=10.0)(q)
         e1 = float(np.max(np.abs(v - pot(q, cs, al, cf))))
         ag0 = AtomGrid(rg, degrees=[9])              # unrotated shells: harmonic components that vanish or keep one sign do so exactly on this grid
-        v0 = po.solve_poisson_bvp(ag0, rho(ag0.points, cs, al, cf), itf, include_origin=True, remove_large_pts=10.0)(q)
+        v0 = po.solve_poisson_bvp(ag0, rho(ag0.points, cs, al, cf), itf, include_origin=False, remove_large_pts=10.0)(q)        # and without the extra mesh point at the origin
         e1 = max(e1, float(np.max(np.abs(v0 - pot(q, cs, al, cf)))))
         v = po.solve_poisson_ivp(ag, rho(ag.points, cs[:1], al[:1], cf[:1]), itf, r_interval=(1000, 1e-5))(q)
         e2 = float(np.max(np.abs(v - pot(q, cs[:1], al[:1], cf[:1]))))
